@@ -38,9 +38,28 @@ func (e *Engine) profileWithURL(s VString) VStruct {
 func registerEat(e *Engine) {
 	e.intr["(*github.com/veraison/eat.Profile).Set"] = func(e *Engine, c *CallCtx) []Outcome {
 		p := c.Args[0].(VPtr)
-		s, ok := c.Args[1].(VString).Concrete()
+		sv := c.Args[1].(VString)
+		s, ok := sv.Concrete()
 		if !ok {
-			unsupported("eat.Profile.Set with symbolic string at %s", c.Site)
+			// symbolic text: accepted iff it is in the URI grammar of ndEatProfile (strings that
+			// net/url accepts outside that grammar are outside the model)
+			g := urlGrammar(sv)
+			var outs []Outcome
+			t, f := e.branch(c.St, g)
+			if f {
+				s2 := c.St
+				if t {
+					s2 = c.St.Fork()
+				}
+				s2.Assume(Not(g))
+				outs = append(outs, Outcome{St: s2, Ret: e.newError(s2, "eat.profileError", VErr{Msg: "profile string must be an absolute URL or an ASN.1 OID"}, c.Site)})
+			}
+			if t {
+				c.St.Assume(g)
+				e.store(c.St, p, e.profileWithURL(sv), c.Site)
+				outs = append(outs, Outcome{St: c.St, Ret: NilIface()})
+			}
+			return outs
 		}
 		u, err := url.Parse(s)
 		if err == nil && u.IsAbs() {
@@ -142,6 +161,7 @@ func registerEat(e *Engine) {
 func isAlpha(b *Term) *Term {
 	return Or(And(CmpBV(OULe, BVC('a', 8), b), CmpBV(OULe, b, BVC('z', 8))), And(CmpBV(OULe, BVC('A', 8), b), CmpBV(OULe, b, BVC('Z', 8))))
 }
+func isLower(b *Term) *Term { return And(CmpBV(OULe, BVC('a', 8), b), CmpBV(OULe, b, BVC('z', 8))) }
 func isDigit(b *Term) *Term { return And(CmpBV(OULe, BVC('0', 8), b), CmpBV(OULe, b, BVC('9', 8))) }
 func isOneOf(b *Term, cs string) *Term {
 	r := False
@@ -159,9 +179,10 @@ func urlGrammar(s VString) *Term {
 	}
 	res := False
 	for colon := 1; colon < n-1; colon++ {
-		conds := []*Term{CmpBV(OSLt, I64(int64(colon+1)), s.Len), Eq(s.B[colon], BVC(':', 8)), isAlpha(s.B[0])}
+		// (lower-case scheme only: net/url lower-cases the scheme, so other spellings are not in normal form)
+		conds := []*Term{CmpBV(OSLt, I64(int64(colon+1)), s.Len), Eq(s.B[colon], BVC(':', 8)), isLower(s.B[0])}
 		for i := 1; i < colon; i++ {
-			conds = append(conds, Or(isAlpha(s.B[i]), isDigit(s.B[i]), isOneOf(s.B[i], "+-.")))
+			conds = append(conds, Or(isLower(s.B[i]), isDigit(s.B[i]), isOneOf(s.B[i], "+-.")))
 		}
 		for i := colon + 1; i < n; i++ {
 			ok := Or(isAlpha(s.B[i]), isDigit(s.B[i]), isOneOf(s.B[i], "._~-/"))
